@@ -25,6 +25,7 @@ RULE = ("(1) stacks: every stack of 0..3 entries (quick; 0..4 thorough sample + 
         "entries or a raising/suppressing entry, history with >= 2 unwinds; distinct = stack or history")
 RULE += (" Also: exits raising standard types (StopAsyncIteration, RuntimeError, KeyError, AttributeError, TypeError, GeneratorExit, Exception, BaseException), exits whose failure carries its own context chain or happens while re-raising, the block's exception object raised again after suppression, manager objects pushed without being entered, aclose() issued inside except/finally of an unrelated exception, managers that register a callback on the stack while being entered (enter succeeding or failing), callbacks registered with keywords named callback/self.")
 RULE += (' Also: exits answering an exception with an object whose truth value cannot be taken.')
+RULE += (' Also: what __(a)enter__ gives is falsy and awaitable (handed on untouched).')
 ASSUMPTIONS = ["nested async with/with statements of the running interpreter are the reference for routing",
                "__context__ chains are not compared"]
 EXHAUSTIVE_SUBSPACES = 'all 16842 stacks of <= 3 entries x block outcome; all histories of length <= 4 (thorough: 5) over 8 operations'
@@ -117,6 +118,31 @@ def cases(tier, seed, shard, nshards):
 # stacks vs nested statements
 # ---------------------------------------------------------------------------
 
+class EnterValue:
+    """What the managers' ``__(a)enter__`` give: falsy, and it happens to be awaitable (a connection object, say).
+    ``enter_context`` hands it on untouched - it is never awaited and its truth value is nobody's business."""
+
+    def __init__(self, i):
+        self.i = i
+
+    def __eq__(self, other):
+        return isinstance(other, EnterValue) and other.i == self.i
+
+    def __hash__(self):
+        return hash(("EnterValue", self.i))
+
+    def __bool__(self):
+        return False
+
+    def __repr__(self):
+        return f"EnterValue({self.i})"
+
+    def __await__(self):
+        CTX.foreign.append(f"the value {self!r} given by a manager's __(a)enter__ was awaited")
+        return self
+        yield  # pragma: no cover
+
+
 def mk_entry(kind, beh, i, log, susp, choice, shared=None):
     def exit_logic(et, ev, tb):
         log.append(("exit", i, None if ev is None else getattr(ev, "n", type(ev).__name__),
@@ -182,7 +208,7 @@ def mk_entry(kind, beh, i, log, susp, choice, shared=None):
             if susp:
                 await Suspend(("enter", i), susp)
             log.append(("enter", i))
-            return ("value", i)
+            return EnterValue(i)
 
         async def __aexit__(self, et, ev, tb):
             if susp:
@@ -192,7 +218,7 @@ def mk_entry(kind, beh, i, log, susp, choice, shared=None):
     class SCM:
         def __enter__(self):
             log.append(("enter", i))
-            return ("value", i)
+            return EnterValue(i)
 
         def __exit__(self, et, ev, tb):
             return exit_logic(et, ev, tb)
@@ -202,7 +228,7 @@ def mk_entry(kind, beh, i, log, susp, choice, shared=None):
 
         def __enter__(self):
             log.append(("sync-enter-used", i))
-            return ("value", i)
+            return EnterValue(i)
 
         def __exit__(self, et, ev, tb):
             log.append(("sync-exit-used", i))
